@@ -101,6 +101,11 @@ BOUNDED_SEARCH = {
              'complete_graph(n, directed) for n <= 7 (exactly the nodes 0..n-1, exactly one edge per pair of distinct nodes); fast_gnp_random_graph for n in {1, 2, 5, 12}, '
              'p in {0.05, 0.5, 0.95}, seeds 0..199 (nodes 0..n-1, no self-loop, no repeated pair, mean number of edges within p*pairs/(n-1) + 5 standard errors), '
              'InvalidArgument for p outside (0, 1); karate_club_graph has 34 nodes and 78 edges')],
+    'C02': [('C02.queries_agree_with_the_added_edges_bounded', 'queries_oracle', 'src/graph/query.rs',
+             'get_all_edges, get_edge / get_edges for every ordered pair of names plus an absent one (error kinds, symmetry, insertion order of parallel edges), '
+             'successor / predecessor / neighbour nodes and has_node against the list of added edges')],
+    'C03': [('C03.weighted_distances_equal_those_from_the_edge_list_bounded', 'sp_oracle', 'src/graph/creation.rs',
+             'single_source and all_pairs distances against Floyd-Warshall over the added edges (parallel edges: the smaller weight)')],
     'C09': [('C09.degrees_agree_with_the_edge_list_bounded', 'counts_oracle', 'src/graph/degree.rs',
              'node / edge counts, size(false), per-node degrees and the degree map against counts over the added edge list (handshake identities follow)')],
 }
